@@ -15,4 +15,4 @@ Extraction "model.ml" nv_types_witness
   build_strings build_contigs get_index get_index_of no_clobber_from PASS
   enc_record enc_record_w enc_site enc_index enc_indices dec_index dec_indices dec_frame dec_head dec_record dec_fields split_typed dec_record_typed dec_flag
   bcf_write bcf_read bcf_read_into bcf_special content write_line read_eager_text
-  lazy_read ik_of fk_of.
+  lazy_read_hdr ik_of fk_of.
